@@ -778,7 +778,9 @@ VALIDATED = [
     "done() has no side effect in Python (checked on every query of every history; in the model done is a function)",
     "NewtonsMethod, GerchbergSaxton (lamb = 0), PDHG with array steps and step adaptation: early stop = fixed point is PROVED "
     "(C15_newton_early_stop_fixed, C15_gs_stop_fixed, C15_pdhg_array_early_stop_fixed, C15_pdhg_adapt_early_stop_fixed); "
-    "GerchbergSaxton with lamb != 0 (its stop rule ignores the Tikhonov term), ADMM / AltMin / AugmentedLagrangianMethod: counters and "
+    "GerchbergSaxton with lamb > 0: C15_gs_tikhonov_stop_fixed_partial proves that a stop after an update whose inner CG converged "
+    "happens only at x = 0, a fixed point (adjoint pair, unit phases); a stop after a NON-converged inner solve (5 CG steps in "
+    "dimension > 5) is covered by the oracle only.  ADMM / AltMin / AugmentedLagrangianMethod: counters and "
     "stop flags by correspondence, early-stop-is-fixed-point by the oracle only",
     "GradientMethod theorems are about the hand model gm__update of coq/model/Alg.v (resid = max(||x-x_old||, ||x-z_old||)/alpha "
     "when accelerating); its tie to alg.py is the history correspondence (stop flags) + the corpus/search oracle here, and the "
